@@ -435,6 +435,25 @@ def step (st : St) (line : String) : St × String :=
       match handle 'U' a, handle 'U' b with
       | some i, some j => ({ st with usks := setSlot st.usks j (getSlot st.usks i) }, "ok")
       | _, _ => (st, "bad-op")
+  | ["forge", a, b, kind] =>
+    match handle 'U' a, handle 'U' b with
+    | some i, some j =>
+      match getSlot st.usks i with
+      | none => ({ st with usks := setSlot st.usks j none }, "ok none")
+      | some u =>
+        let r : Option (Option Usk) :=
+          match kind with
+          | "sig" => some (u.sig.map (fun s => { u with sig := some { s with id := 0 :: s.id } }))
+          | "strip" => some (u.sig.map (fun _ => { u with sig := none }))
+          | "drop" =>
+            some (if u.secrets.any (fun c => c.1.isEmpty) then
+              some { u with secrets := u.secrets.filter (fun c => !c.1.isEmpty) } else none)
+          | _ => none
+        match r with
+        | none => (st, "bad-op")
+        | some (some u') => ({ st with usks := setSlot st.usks j (some u') }, "ok forged")
+        | some none => ({ st with usks := setSlot st.usks j (some u) }, "ok unchanged")
+    | _, _ => (st, "bad-op")
   | ["roundtrip", _] => (st, "ok")
   | ["usk_rights", ms, p] =>
     match handle 'M' ms with
